@@ -4,7 +4,10 @@ import LMV.Driver.Util
 /-!
   driver of C02.
 
-  case:   c02 <dev|release> <arm> <block> <threshold f32 bits> <M> <5·M f32 bit patterns> <W> <L> <L symbols>
+  case:   c02 <dev|release> <arm> <block> <threshold f32 bits> <M> <5·M f32 bit patterns> <W> <L> <L symbols> [H <h>…]
+          H …: the configure history of the one striped sequence object before the final
+          `configure_wrap(W)`: `w<n>` = `configure_wrap(n)`, `c<n>` / `s<n>` = `configure(&pssm')` with a
+          motif of n rows (`s`: followed by a scan with that motif, which does not touch the sequence)
   answer: hits <n> <position:score-bits …, sorted by position>   or   panic
 -/
 namespace LMV.Driver.C02
@@ -21,6 +24,19 @@ def parseMat (K M : Nat) (toks : List String) : Mat Float32 K :=
 def armOf (s : String) : Arm :=
   if s == "avx2" then .avx2 else if s == "sse2" then .sse2 else .generic
 
+/-- replay one entry of the configure history on the sequence model -/
+def histStep (st : Striped 32) (h : String) : Striped 32 :=
+  let n := parseNat! (h.drop 1).toString
+  if h.startsWith "w" then st.configureWrap 4 n else st.configure 4 n
+
+/-- the striped sequence of a case: stripe, the history (if any), then `configure_wrap(W)` -/
+def stripedOf (syms : List Nat) (hist : List String) (w : Nat) : Striped 32 :=
+  let st : Striped 32 := Striped.stripeGeneric 4 syms Striped.empty
+  let st := match hist with
+    | "H" :: hs => hs.foldl histStep st
+    | _ => st
+  st.configureWrap 4 w
+
 /-- a parsed scanner case: `Scanner::new(&pssm, &striped)` (may panic in `to_discrete`) -/
 structure Setup where
   k : Kernels Float32 32
@@ -30,8 +46,8 @@ def setup (profile arm : String) (M : Nat) (rest : List String) : Option (Except
   let p : Mat Float32 5 := parseMat 5 M rest
   match rest.drop (5 * M) with
   | w :: l :: rest =>
-    let (syms, _) := takeNats rest (parseNat! l)
-    let st : Striped 32 := (Striped.stripeGeneric 4 syms Striped.empty).configureWrap 4 (parseNat! w)
+    let (syms, hist) := takeNats rest (parseNat! l)
+    let st : Striped 32 := stripedOf syms hist (parseNat! w)
     match toDiscrete p with
     | .error e => some (.error e)
     | .ok dm => some (.ok ⟨kernels p dm st (armOf arm) (accOf (profile == "dev")), syms.length⟩)
